@@ -866,13 +866,34 @@ def c17(tier, seed):
         tids = sorted(hs[0].get_dict_top_level_hogs(), key=str)
         hogkeys = sorted(nodekey(x) for t in hs[0].get_list_top_level_hogs() for x in all_nodes(t) if isinstance(x, ag.HOG))
         genes = sorted(hs[0].get_dict_extant_genes())
+        xvals17 = sorted(set(v for _, gs_ in D.species for _, xr in gs_ for _, v in xr))
         subids = sorted(set(str(x.hog_id) for t in hs[0].get_list_top_level_hogs() for x in all_nodes(t)
                             if isinstance(x, ag.HOG) and x.parent is not None and x.hog_id is not None) | set(str(k_) for k_ in hs[0].get_dict_top_level_hogs() if k_ is not None))
         bad = []
         ops = []
         nops = ex.rng.randint(5, 40 if tier == 'thorough' else 25)
         for _ in range(nops):
-            kind = ex.rng.choice(['v', 'v', 'vrel', 'vrel', 'l', 'tp', 'tph', 'tph', 'tph', 'iham', 'iham', 'clust', 'lookup', 'gname', 'nav', 'atlevel', 'repeat'])
+            kind = ex.rng.choice(['v', 'v', 'vrel', 'vrel', 'l', 'tp', 'tph', 'tph', 'tph', 'iham', 'iham', 'clust', 'lookup', 'gname', 'nav', 'atlevel', 'repeat',
+                                  'misc', 'misc', 'misc'])
+            if kind == 'misc':
+                # the rest of the public surface: listings, the remaining lookups, member navigation, exports to disk
+                sub_ = ex.rng.choice(['lists', 'xref', 'mrca', 'levels', 'byspecies', 'toplevel', 'tphtml', 'ihamfile', 'anc_taxon', 'taxon_name', 'ndup'])
+                wm = ex.rng.randint(0, 1)
+                if sub_ in ('levels', 'byspecies', 'toplevel') and hogkeys:
+                    ops.append([wm, sub_, ex.rng.choice(hogkeys)])
+                elif sub_ == 'mrca' and len(taxa) >= 2:
+                    ops.append([wm, sub_, ex.rng.sample(taxa, min(len(taxa), ex.rng.randint(2, 3)))])
+                elif sub_ in ('anc_taxon', 'taxon_name') and taxa:
+                    ops.append([wm, sub_, ex.rng.choice(taxa)])
+                elif sub_ == 'ndup' and len(taxa) >= 2:
+                    ops.append([wm, sub_] + ex.rng.sample(taxa, 2))
+                elif sub_ == 'xref' and xvals17:
+                    ops.append([wm, sub_, ex.rng.choice(xvals17)])
+                elif sub_ == 'ihamfile' and hogkeys:
+                    ops.append([wm, sub_, ex.rng.choice(hogkeys)])
+                elif sub_ in ('lists', 'tphtml'):
+                    ops.append([wm, sub_])
+                continue
             if kind == 'repeat' and ops:
                 ops.append(ex.rng.choice(ops)[:]); ops[-1][0] = ex.rng.randint(0, 1); continue
             w = ex.rng.randint(0, 1)
@@ -951,6 +972,41 @@ def c17(tier, seed):
                 if kind == 'hogid':
                     x = h.get_hog_by_id(op[2])
                     return 'hogid %s' % nodekey(x)
+                if kind == 'lists':
+                    return 'lists ' + '|'.join([','.join(sorted(map(str, h.get_dict_top_level_hogs()))), ','.join(sorted(x.unique_id for x in h.get_list_extant_genes())),
+                                                ','.join(sorted(x.name for x in h.get_list_extant_genomes() if x.genes)),
+                                                ','.join(sorted(x.name for x in h.get_list_ancestral_genomes() if x.genes)),
+                                                ','.join(sorted(nodekey(x) for x in h.get_list_top_level_hogs()))])
+                if kind == 'xref':
+                    return 'xref ' + ','.join(sorted(x.unique_id for x in h.get_genes_by_external_id(op[2])))
+                if kind == 'mrca':
+                    wp_ = gen.lcp(list(op[2]))
+                    if wp_ not in gs or not gs[wp_].genes:
+                        return 'mrca at a taxon without genes (a genome may or may not exist there yet: permitted)'
+                    return 'mrca ' + taxS(pathof(h.get_ancestral_genome_by_mrca_of_genome_set(set(gs[t_] for t_ in op[2])).taxon))
+                if kind == 'levels':
+                    return 'levels ' + ','.join(sorted(taxS(pathof(x.taxon)) for x in byk[op[2]].get_all_descendant_hog_levels()))
+                if kind == 'byspecies':
+                    return 'byspecies ' + ';'.join(sorted(k_.name + ':' + ','.join(sorted(x.unique_id for x in v_)) for k_, v_ in byk[op[2]].get_all_descendant_genes_clustered_by_species().items()))
+                if kind == 'toplevel':
+                    return 'toplevel ' + nodekey(byk[op[2]].get_top_level_hog())
+                if kind == 'tphtml':
+                    pth = os.path.join(ex.tmp, 'c17tp.html')
+                    h.create_tree_profile(outfile=pth, as_html=True)
+                    return 'tphtml ' + json.dumps(orc.html_tree_data(pth), sort_keys=True)
+                if kind == 'ihamfile':
+                    pth = os.path.join(ex.tmp, 'c17iham.html')
+                    vis_ = h.create_iHam(byk[op[2]], outfile=pth)
+                    return 'ihamfile %s %s' % (open(pth).read() == vis_.HTML, vis_.famdata)
+                if kind == 'anc_taxon':
+                    g_ = gs[op[2]]
+                    return 'anc_taxon ' + (g_.name if h.get_ancestral_genome_by_taxon(g_.taxon) is g_ else 'OTHER')
+                if kind == 'taxon_name':
+                    g_ = gs[op[2]]
+                    return 'taxon_name ' + taxS(pathof(h.get_taxon_by_name(g_.name)))
+                if kind == 'ndup':
+                    m_ = h.compare_genomes_vertically(gs[op[2]], gs[op[3]])
+                    return 'ndup %s %s' % (m_.get_number_duplications(), taxS(pathof(m_.ancestor.taxon)) + '>' + taxS(pathof(m_.descendant.taxon)))
                 if kind == 'gname':
                     g = gs[op[2]]
                     f = h.get_ancestral_genome_by_name if g.taxon.children else h.get_extant_genome_by_name
